@@ -194,7 +194,7 @@ def part_whois(ctx, binary, judge, cov):
     cov["tlc"]["ArpQuery_whois_ev%d" % maxev] = r.summary()
     allb = xc.exported(r, "plan")
     cov["tlc"]["ArpQuery_whois_ev%d" % maxev]["behaviours"] = len(allb)
-    cap = 1200 if quick else 6000
+    cap = 3000 if quick else 9000
     if len(allb) > cap:
         short = [b for b in allb if len(b["plan"]) < 3]
         rest = [b for b in allb if len(b["plan"]) >= 3]
